@@ -77,8 +77,12 @@ class TableEcu:
         self.busy = 0.0            # probability of busyRepeatRequest instead of the reply
         self.reset_mode = "ok"     # ok | neg | silent | garbage | stay
         self.reset_levels = {1}
-        self.boot = []             # answers to the pings after a positive reset: 't' | 'i' (then normal)
+        self.boot = []             # what the ECU does with the first requests after a positive reset: 't' deaf | 'i' garbage
         self.booting = []
+        self.fake_reentry = False  # a refused re-entry is answered positively although the session is not entered
+        self.f186_then = None      # (n, mode): after n answered read-backs the read-back behaves like `mode`
+        self.f186_nondefault = None  # read-back behaviour outside the default session (None: as in the default session)
+        self.readbacks = 0
         self.log = []              # (session at receipt, pdu, final reply)
         self.silent_pings = 0
 
@@ -99,6 +103,8 @@ class TableEcu:
             if t in self.trans.get(s, ()) and t in self.sessions:
                 if t in self.dropped and self.refuse > 0:
                     self.refuse -= 1
+                    if self.fake_reentry:
+                        return bytes([0x50, t, 0x00, 0x32, 0x01, 0xF4])
                     return bytes([0x7F, 0x10, 0x22])
                 self.session = t
                 self.since = 0
@@ -123,10 +129,20 @@ class TableEcu:
         if sid in (0x10, 0x11):
             return bytes([0x7F, sid, 0x13 if len(pdu) != 2 else 0x12])
         if sid == 0x3E:
-            if pdu == b"\x3e\x00" and self.booting:
-                a = self.booting.pop(0)
-                return None if a == "t" else bytes([0x7F, 0x3F, 0x31])
             return bytes([0x7E, 0x00]) if pdu == b"\x3e\x00" else bytes([0x7F, 0x3E, 0x13])
+        if pdu == b"\x22\xf1\x86":
+            self.readbacks += 1
+            if self.f186_then is not None and self.readbacks > self.f186_then[0]:
+                self.f186 = self.f186_then[1]
+            mode = self.f186_nondefault if (s != 1 and self.f186_nondefault) else self.f186
+            if mode == "garbage":
+                return bytes([0x7F, 0x23, 0x31])
+            if mode == "nrc22":
+                return bytes([0x7F, 0x22, 0x22])
+            if mode == "silent":
+                return None
+            if mode == "nrc31":
+                return bytes([0x7F, 0x22, 0x31])
         if pdu == b"\x22\xf1\x86" and self.supports(s, 0x22) or pdu == b"\x22\xf1\x86" and self.f186 != "nrc11":
             if self.f186 == "ok":
                 return bytes([0x62, 0xF1, 0x86, s])
@@ -198,8 +214,11 @@ class TableEcu:
 
     def __call__(self, pdu):
         before = self.session
-        if pdu != b"\x3e\x00":
-            self.booting = []      # the boot phase concerns the pings of wait_for_ecu only
+        if self.booting:
+            a = self.booting.pop(0)
+            r = None if a == "t" else bytes([0x7F, (pdu[0] + 1) & 0xFF, 0x31])
+            self.log.append((before, pdu, r))
+            return r
         r = self._respond(pdu)
         self.log.append((before, pdu, r))
         if pdu == b"\x3e\x00":
@@ -392,6 +411,8 @@ def _behaviour(rng, ecu, mode):
     if mode == "drop-sid":
         cand = [sid for d in ecu.svc.values() for sid in d] + [rng.randrange(256) for _ in range(3)]
         ecu.drop_sids = set(rng.sample(cand, min(len(cand), rng.randint(1, 3))))
+        if rng.random() < 0.2:
+            ecu.f186_then = (rng.randint(1, 6), rng.choice(["silent", "nrc31", "nrc22", "garbage"]))
         return "drop-sid"
     if mode == "drop-count":
         ecu.drop_after = rng.choice([1, 2, 3, 7, 20, 60, 150, 400])
@@ -403,6 +424,9 @@ def _behaviour(rng, ecu, mode):
         else:
             ecu.drop_after = rng.choice([1, 5, 30, 200])
         ecu.refuse = rng.choice([1, 2, 3, 4, 5, 10 ** 9, 10 ** 9])
+        ecu.fake_reentry = rng.random() < 0.3
+        if rng.random() < 0.3:
+            ecu.f186_then = (rng.randint(1, 6), rng.choice(["silent", "nrc31", "nrc22", "garbage", "stuck1"]))
         return "refuse"
     if mode == "pending":
         ecu.pending = rng.choice([0.05, 0.3, 1.0])
@@ -412,6 +436,8 @@ def _behaviour(rng, ecu, mode):
         return "pending"
     if mode == "busy":
         ecu.busy = rng.choice([0.02, 0.1, 0.4])
+        if rng.random() < 0.5:
+            ecu.pending = rng.choice([0.2, 0.6])   # busyRepeatRequest behind ResponsePending frames is returned, not retried
         return "busy"
     raise ValueError(mode)
 
@@ -421,8 +447,9 @@ def _reset_setup(rng, ecu):
     level = rng.choice([1, 1, 1, 2, 3, 0x40])
     ecu.reset_levels = {1, level} if rng.random() < 0.85 else {1}
     ecu.reset_mode = rng.choice(["ok", "ok", "ok", "ok", "neg", "silent", "garbage", "stay"])
-    ecu.boot = rng.choice([[], [], ["t"], ["t"] * 3, ["i"] * 2, ["t", "i"] * 3, ["t"] * 9, ["t"] * 10, ["t"] * 12, ["i"] * 18, ["i"] * 19,
-                           ["i"] * 25, ["t"] * 8 + ["i"] * 2, ["t"] * 8 + ["i"] * 3, ["i", "t"] * 8])
+    short = [[], [], ["t"], ["t"] * 3, ["i"] * 2, ["t", "i"] * 3, ["t"] * 9, ["i"] * 18, ["t"] * 8 + ["i"] * 2, ["i", "t"] * 6]
+    long = [["t"] * 10, ["t"] * 12, ["i"] * 19, ["i"] * 25, ["t"] * 8 + ["i"] * 3, ["i", "t"] * 8]
+    ecu.boot = rng.choice(short + (long if ecu.wild else []))
     return level
 
 
@@ -469,20 +496,26 @@ def run(ctx):
     # ------------------------------------------------------------------ service scan
     n_svc = ctx.pick(260, 1500)
     modes = ["plain", "plain", "plain", "drop-sid", "drop-sid", "drop-count", "refuse", "refuse", "pending", "busy"]
+    n_forced = ctx.pick(42, 140)
     for i in range(n_svc):
-        wild = rng.random() < 0.25
+        # the first cases force the combinations in which the session check / the reset path have work to do
+        forced = i % 7 if i < n_forced else None
+        wild = rng.random() < 0.25 and forced is None
         ecu_seed = rng.randrange(1 << 60)
-        flat = rng.random() < 0.4
-        ecu = TableEcu(_random.Random(ecu_seed), wild=wild, flat=flat)
-        use_sessions = rng.random() < 0.8
+        flat = rng.random() < 0.4 or forced is not None
+        n_sess = None if forced is None else rng.randint(2, 3)
+        ecu = TableEcu(_random.Random(ecu_seed), wild=wild, flat=flat, n_sessions=n_sess)
+        use_sessions = rng.random() < 0.8 or forced is not None
         sessions = None
         if use_sessions:
             pool = ecu.sessions + rng.sample(range(2, 0x7F), 2)
             sessions = sorted(set(rng.sample(pool, rng.randint(1, min(4, len(pool))))))
+            if forced is not None:
+                sessions = sorted(set(sessions) | set(ecu.sessions[1:]))
             if rng.random() < 0.3:
                 rng.shuffle(sessions)
         skip = {}
-        if use_sessions and rng.random() < 0.6:
+        if use_sessions and rng.random() < 0.6 and forced is None:
             for s in rng.sample(sessions, rng.randint(1, len(sessions))):
                 if rng.random() < 0.25:
                     skip[s] = None
@@ -503,7 +536,27 @@ def run(ctx):
             mode = "plain"   # busyRepeatRequest to a probe is not an ISO-default answer: wild ECUs only
         if mode in ("drop-sid", "drop-count", "refuse") and ecu.f186 != "ok" and rng.random() < 0.7:
             ecu.f186 = "ok"   # give the session check something to read
+        if forced is not None:
+            ecu.f186 = "ok"
+            check = forced in (0, 1, 2, 5, 6)
+            mode = ["refuse", "drop-sid", "refuse", "plain", "plain", "pending", "drop-sid"][forced]
+            if forced in (3, 4):
+                reset = rng.choice([1, 2])
+                ecu.reset_levels = {1, 2}
+                ecu.reset_mode = "ok" if forced == 3 else rng.choice(["silent", "neg"])
+                ecu.boot = rng.choice([["t"], ["t"] * 3, ["i"] * 2, ["t", "i"]]) if forced == 3 else []
         label = _behaviour(rng, ecu, mode)
+        if forced == 6:
+            # the read-back works in the default session only: the exception paths inside the re-entry loop
+            ecu.f186_nondefault = rng.choice(["silent", "nrc31", "nrc22", "garbage"])
+        if forced in (0, 1, 2, 6):
+            # the session is lost early, by a probe: low service ids as triggers, no request counter
+            ecu.drop_after = None
+            ecu.drop_sids = set(rng.sample(range(0x00, 0x20), rng.randint(1, 2)))
+            if forced == 0:
+                ecu.refuse, ecu.fake_reentry = rng.choice([3, 40, 10 ** 9, 10 ** 9]), True
+            if forced == 2:
+                ecu.refuse, ecu.fake_reentry = rng.choice([4, 5, 10 ** 9]), False
         skip_arg = None
         if skip and rng.random() < 0.7:
             # as on the command line: text through the real Ranges2D field type; what it denotes is the oracle's map
@@ -521,7 +574,7 @@ def run(ctx):
         inert_run = not wild and label in ("plain", "pending")
         # --- spec verdict on the ground truth (conformant ECUs, run completed) ---
         if inert_run and r["outcome"] in ("exit0", "exit1"):
-            _svc_spec(ctx, ecu, sessions, skip, check, rid, r, head)
+            _svc_spec(ctx, ecu, sessions, skip, check, rid, reset, r, head)
         elif inert_run and not _may_die(ecu, reset, r):
             ctx.disagree("svc:scan-died:" + r["outcome"].split()[-1], f"service scan ended with {r['outcome']} on a conformant ECU (session read mode {ecu.f186}); nothing is reported",
                          {"cfg": head, "f186": ecu.f186}, impl=r["outcome"], spec_violated=True, site="ServicesScanner.main / ECU.check_and_set_session")
@@ -533,7 +586,7 @@ def run(ctx):
         # --- metamorphic pairs on conformant, stable ECUs ---
         if inert_run and use_sessions and r["outcome"] in ("exit0", "exit1") and i % 3 == 0:
             def twin():
-                e2 = TableEcu(_random.Random(ecu_seed), wild=False, flat=flat)
+                e2 = TableEcu(_random.Random(ecu_seed), wild=False, flat=flat, n_sessions=n_sess)
                 e2.f186 = ecu.f186
                 return e2
             base = sorted(sc.result)
@@ -605,19 +658,24 @@ def run(ctx):
     idmod.logger.notice = lambda *a, **k: None
     n_id = ctx.pick(360, 2000)
     id_modes = ["plain", "plain", "plain", "drop-count", "refuse", "pending", "busy", "drop-sid"]
+    n_id_forced = ctx.pick(24, 80)
     for i in range(n_id):
-        wild = rng.random() < 0.3
-        ecu = TableEcu(_random.Random(rng.randrange(1 << 60)), wild=wild, flat=rng.random() < 0.3)
+        forced = i % 4 if i < n_id_forced else None   # combinations in which the session check has work to do
+        wild = rng.random() < 0.3 and forced is None
+        ecu = TableEcu(_random.Random(rng.randrange(1 << 60)), wild=wild, flat=rng.random() < 0.3 or forced is not None,
+                       n_sessions=None if forced is None else rng.randint(1, 3))
         service = rng.choice([0x22, 0x27, 0x2E, 0x31])
         # make the service available in most sessions so that something is counted
         for s in ecu.sessions:
             if rng.random() < 0.8:
                 ecu.svc[s][service] = (1, 0x31, False)
-        use_sessions = rng.random() < 0.7
+        use_sessions = rng.random() < 0.7 or forced is not None
         sessions = None
         if use_sessions:
             pool = ecu.sessions + rng.sample(range(2, 0x7F), 1)
             sessions = sorted(set(rng.sample(pool, rng.randint(1, min(3, len(pool))))))
+            if forced is not None:
+                sessions = sorted(set(sessions) | set(ecu.sessions[1:]))
         start = rng.choice([0, 0, 1, 5, 0x70, rng.randrange(0, 40)])
         end = start + rng.choice([0, 1, 7, 20, 47]) if rng.random() < 0.9 else max(0, start - 1)
         if service == 0x27 and rng.random() < 0.3:
@@ -630,6 +688,11 @@ def run(ctx):
         check = rng.choice([None, None, 1, 2, 5]) if use_sessions else rng.choice([None, 1])
         sns = rng.random() < 0.3
         mode = rng.choice(id_modes) if use_sessions else rng.choice(["plain", "pending", "busy"])
+        if forced is not None:
+            mode = ["drop-sid", "drop-sid", "refuse", "pending"][forced]
+            check = [1, 1, rng.choice([1, 2]), rng.choice([None, 1])][forced]
+            ecu.f186 = "ok"
+            skip = {}
         if mode == "drop-sid":
             ecu.drop_sids = {service}
             ecu.drop_after = None
@@ -638,7 +701,7 @@ def run(ctx):
             label = _behaviour(rng, ecu, mode)
         if use_sessions:
             ecu.reset_mode = rng.choice(["ok", "ok", "ok", "neg", "stay", "silent", "garbage"])
-            ecu.boot = rng.choice([[], [], ["t"], ["i"] * 2, ["t"] * 9, ["t"] * 11, ["i"] * 20, ["t", "i"] * 7])
+            ecu.boot = rng.choice([[], [], ["t"], ["i"] * 2, ["t"] * 9, ["t", "i"] * 6] + ([["t"] * 11, ["i"] * 20, ["t", "i"] * 7] if wild else []))
         hooks = _hooks_setup(rng, list(sessions) + [1]) if use_sessions and rng.random() < 0.3 else {}
         dflt = rng.choice([0, 1, 3])
         skip_arg = skip
@@ -783,16 +846,23 @@ def _is_probe(pdu):
     return len(pdu) in (2, 3, 4, 6) and not any(pdu[1:])
 
 
-def _entered(ecu, sessions, skip):
-    """(key, real session) for every requested, non-skipped session the ECU let the scanner enter (read off the ECU's own log)"""
-    ok = set()
-    for before, pdu, reply in ecu.log:
-        if len(pdu) == 2 and pdu[0] == 0x10 and reply is not None and reply[0] == 0x50:
-            ok.add(pdu[1])
-    return [(s, s) for s in sessions if not (s in skip and skip[s] is None) and s in ok]
+def _entered(ecu, sessions, skip, reset):
+    """(key, real session) for every requested, non-skipped session a session-stable table ECU lets the scanner enter:
+    follows the ECU's own transition table through the session list, with the effect of --reset in between"""
+    out = []
+    cur = 1
+    for s in sessions:
+        if s in skip and skip[s] is None:
+            continue
+        if s in ecu.trans.get(cur, ()) and s in ecu.sessions:
+            cur = s
+            out.append((s, s))
+            if reset is not None and reset in ecu.reset_levels and ecu.reset_mode in ("ok", "silent"):
+                cur = 1
+    return out
 
 
-def _svc_spec(ctx, ecu, sessions, skip, check, rid, r, head):
+def _svc_spec(ctx, ecu, sessions, skip, check, rid, reset, r, head):
     """the property evaluated on a conformant, session-stable table ECU's ground truth"""
     sc = r["scanner"]
     got = set(sc.result)
@@ -800,7 +870,7 @@ def _svc_spec(ctx, ecu, sessions, skip, check, rid, r, head):
     if sessions is None:
         probed_sessions = [(0, 1)]
     else:
-        probed_sessions = _entered(ecu, sessions, skip)
+        probed_sessions = _entered(ecu, sessions, skip, reset)
     aborted = bool(r["aborts"])  # a failed session check may cut a session scan short
     for key, real in probed_sessions:
         for sid in range(256):
@@ -831,7 +901,10 @@ def _svc_spec(ctx, ecu, sessions, skip, check, rid, r, head):
             ctx.disagree("svc:reported-under-session-not-entered", f"service scan reports sid {sid:#x} under session {key:#x}, which the ECU never let it enter",
                          {"cfg": head, "sid": sid, "session": key}, impl=sorted(got), spec_violated=True, site="ServicesScanner.main")
     missing = expected - got
-    if missing and not aborted:
+    storm = ecu.pending and max(ecu.pending_ks) >= 120
+    # a hook request that is not answered makes set_session raise: the session is skipped by design
+    hook_failed = any(pdu in HOOK_PDUS and tok in ("t", "i", "s") for pdu, tok in r["trace"])
+    if missing and not aborted and not storm and not hook_failed:
         k, sid = sorted(missing)[0]
         ctx.disagree("svc:implemented-service-not-reported", f"service scan misses sid {sid:#x} (session key {k:#x}) although the ECU answers a probe meaningfully",
                      {"cfg": head, "missing": sorted(missing)[:10]}, impl=sorted(got), spec_violated=True, site="ServicesScanner.perform_scan")
@@ -839,7 +912,7 @@ def _svc_spec(ctx, ecu, sessions, skip, check, rid, r, head):
         ctx.disagree("svc:session-check-failed-on-stable-ecu", "the session check gave up although the ECU never left the session and reads it back correctly",
                      {"cfg": head, "aborts": r["aborts"]}, impl=r["aborts"], spec_violated=True, site="ECU.check_and_set_session")
     # every probe was received by the ECU in the session it is reported under
-    if sessions is not None:
+    if sessions is not None and not hook_failed:
         key = None
         main_dsc = _main_dsc_positions(ecu, sessions, skip)
         for idx, (before, pdu, reply) in enumerate(ecu.log):
@@ -914,7 +987,7 @@ def _svc_checked_spec(ctx, ecu, sessions, skip, check, rid, r, head):
     reported for a service id whose own probes do not make the ECU drop the session is implemented in the claimed session,
     and the first probe of every service id reached the ECU in the claimed session; a failed check ends the session's scan
     with exit status 1."""
-    if not check or ecu.f186 != "ok" or sessions is None:
+    if not check or ecu.f186 != "ok" or ecu.f186_then is not None or ecu.f186_nondefault is not None or sessions is None:
         return
     sc = r["scanner"]
     got = set(sc.result)
@@ -931,8 +1004,8 @@ def _svc_checked_spec(ctx, ecu, sessions, skip, check, rid, r, head):
                          site="ServicesScanner.perform_scan / ECU.check_and_set_session")
             return
     # the first probe of every service id follows a read-back that confirmed the session
-    if not trigger_free:
-        return
+    if not trigger_free or any(pdu in HOOK_PDUS and tok in ("t", "i", "s") for pdu, tok in r["trace"]):
+        return   # (a failed hook request makes set_session raise after the session change: which `10 k` started a scan is then not visible in the ECU's log)
     key = None
     main_dsc = _main_dsc_positions(ecu, sessions, skip)
     prev = None
@@ -951,12 +1024,18 @@ def _svc_checked_spec(ctx, ecu, sessions, skip, check, rid, r, head):
 
 def _id_checked_spec(ctx, ecu, service, r, head):
     """identifier scan, check-session for every identifier, ECU drops the session after every request of the scanned service:
-    every identifier probe still reaches the ECU in the session being scanned (or the scan of the session is given up)"""
+    the first transmission of every identifier probe still reaches the ECU in the session being scanned (or the scan of the
+    session is given up); retransmissions of an unanswered probe follow without a new check"""
     key = None
+    prev = None
     for before, pdu, reply in ecu.log:
+        retransmission = pdu == prev
+        prev = pdu
         if len(pdu) == 2 and pdu[0] == 0x10:
             if reply is not None and reply[0] == 0x50:
                 key = pdu[1]
+            continue
+        if retransmission or pdu in HOOK_PDUS:
             continue
         if pdu[0] == service and pdu != b"\x22\xf1\x86" and key not in (None, 1) and before != key:
             ctx.disagree("id:probe-outside-claimed-session", f"--check-session 1 is on, yet `{pdu.hex()}` of the scan of session {key:#x} reached the ECU in session {before:#x}",
@@ -1036,16 +1115,29 @@ def _random_server(rng):
 
 
 MANIFEST = {
-    "level_text": ("Lean 4 theorems over an executable model of ServicesScanner.main / ScanIdentifiers.main (probe loop, skip map, "
-                   "session loop, check_and_set_session, leave_session) for every ECU given as a step function: reported services are "
-                   "implemented in the claimed session and implemented services answering a probe meaningfully are reported (for "
-                   "session-determined ECUs obeying the ISO default rule), skipped ids are never requested, every selected id is probed, "
-                   "the positive counter equals the number of positive replies to exactly the PDUs of the requested range. Tied to the "
-                   "code by replaying the real scanners' exchange traces (table ECUs, wild ECUs, the real RandomUDSServer) through the "
-                   "model and by evaluating the property on the ECUs' ground truth."),
-    "level_note": ("Trusted: Lean kernel, the harness (exchange recorder around ECU._request, table ECU generator), the real UDSClient as "
-                   "the producer of outcome classes. Configuration domain: no --reset, no database, no power supply. wait_for_ecu's wall-clock "
-                   "limit is modelled as a ping budget."),
-    "technique": "Lean 4 proof (structural induction over probe / identifier lists, invariants on the ECU session) + trace-replay correspondence against the real scanners",
+    "level_text": ("Lean 4 theorems over an executable model of ServicesScanner.main / ScanIdentifiers.main for every configuration "
+                   "(probe loop, skip map, session loop, --check-session with ECU.check_and_set_session incl. the 22 F1 86 read-back and the "
+                   "re-entry loop, --reset with ECUReset + wait_for_ecu, ECU.set_session with its pre/post hooks, leave_session, the client's "
+                   "retry / busyRepeatRequest / ResponsePending loop underneath), for every ECU given as a step function. For any ECU with a "
+                   "request log: only probes of selected ids and session maintenance are ever sent (also in runs that are given up or die), "
+                   "every selected id is probed, skipped ids and wholly skipped sessions are never requested, the number of requests is bounded. "
+                   "For session-determined ECUs obeying the ISO default rule: reported <=> selected, implemented in the claimed session and "
+                   "answering a probe meaningfully (sound for every configuration, exact when the read-back is honest), --reset does not change "
+                   "the reported set, identifier counters equal the number of positive identifiers per entered session. For ECUs that lose the "
+                   "session silently and read it back honestly: a passed session check establishes the session, first probes (and all probes of "
+                   "ids that do not disturb the session) reach the ECU in the claimed session, findings for such ids are implemented there, a "
+                   "lost session gets nothing reported, a failed check gives exit status 1. ResponsePending below MAX_N_PENDING is transparent. "
+                   "Tied to the code per single transmission: the real scanners run on a real ECU client over wire-level ECUs (table ECUs with "
+                   "session drops, refused / faked re-entry, ResponsePending, busyRepeatRequest, reset / boot variants, hooks; wild ECUs; the real "
+                   "RandomUDSServer); the model must put the same transmissions on the wire in the same order and report the same result; the "
+                   "property is evaluated on the ECUs' ground truth; metamorphic pairs (reset, check-session, ResponsePending on/off)."),
+    "level_note": ("Trusted: Lean kernel, the harness (wire transport, exchange recorder around ECU._request, table ECU generator), the real "
+                   "UDSClient's matcher as the classifier of final messages (C03). Literal limits (retries, max_retry per call site, MAX_N_PENDING, "
+                   "wait_for_ecu durations, leave_session levels) are regenerated from the AST and tied by limits_agree. Outside: database-assisted "
+                   "session changes, power supply, connection loss (C08), ResponsePending followed by silence in answer to a ping of wait_for_ecu; "
+                   "max_retry per call site is given to the model as a function of the request bytes."),
+    "technique": ("Lean 4 proof (frame lemmas: every state predicate preserved by the allowed requests is preserved by the scanner; structural "
+                  "induction over service-id / identifier / session lists; invariants on the ECU session; request-log abstraction shared by the "
+                  "exchange and the transmission level) + per-transmission trace-replay correspondence against the real scanners + regenerated limits"),
     "design_ref": "DESIGN.md section 7, C10",
 }
